@@ -79,6 +79,13 @@ int main(void) {
             argv[argc++] = tok;
         }
         if (argc == 0) { puts("empty"); continue; }
+        if (strcmp(argv[0], "rt.flags") == 0) {
+            printf("sse2=%d sse3=%d ssse3=%d sse41=%d avx=%d avx2=%d avx512f=%d pclmul=%d aesni=%d rdrand=%d gcm=%d\n",
+                   sodium_runtime_has_sse2(), sodium_runtime_has_sse3(), sodium_runtime_has_ssse3(), sodium_runtime_has_sse41(),
+                   sodium_runtime_has_avx(), sodium_runtime_has_avx2(), sodium_runtime_has_avx512f(), sodium_runtime_has_pclmul(),
+                   sodium_runtime_has_aesni(), sodium_runtime_has_rdrand(), crypto_aead_aes256gcm_is_available());
+            continue;
+        }
         for (t = 0; tables[t] && !handled; t++) {
             const hx_op *op;
             for (op = tables[t]; op->name; op++) {
